@@ -216,7 +216,6 @@ impl<C: Suite> Model for M09<C> {
 
 pub fn models(tier: Tier, seed: u64) -> Vec<Box<dyn DynModel>> {
     let mut v: Vec<Box<dyn DynModel>> = vec![bounded(M09::<Bls12381G1Impl>::new(tier, seed), 1), bounded(M09::<Bls12381G2Impl>::new(tier, seed), 1)];
-    v.extend(crate::props::tsurf::models("C09", tier, seed));
     v
 }
 
